@@ -29,6 +29,7 @@ def run(rep, tier):
     if branches:
         common.guarded(rep, "C03.3", c03_3, rep, ix, M, cc, branches)
         common.guarded(rep, "C03.8", c03_8, rep, ix, M, cc, branches)
+        common.guarded(rep, "C03.9", c03_9, rep, ix, M, cc, branches)
     common.guarded(rep, "C03.4", c03_4, rep, ix, M)
     common.guarded(rep, "C03.5", c03_5, rep, ix, M)
     from . import c05
@@ -37,6 +38,9 @@ def run(rep, tier):
     # (int vs float elements behave differently under ** and /) is part of the arithmetic value
     common.guarded(rep, "C05.2", c05.c05_2, rep, ix)
     common.guarded(rep, "C05.3", c05.c05_3, rep, ix)
+    # ... and the value delivered for a written expression is the evaluator's result for it, unmodified and always computed by the evaluator
+    from . import c02
+    common.guarded(rep, "C02.3", c02.c02_3, rep, ix, M)
 
 
 # ------------------------------------------------------------------------------------------- C03.1 precedence / associativity
@@ -268,6 +272,39 @@ def c03_8(rep, ix, M, cc, branches):
             rep.bad(R, site, text, "a path returns %s" % show(t), key="index|%d" % n_)
         else:
             rep.unknown(R, site, text, "returns %s" % show(t))
+
+
+def c03_9(rep, ix, M, cc, branches):
+    R = "C03.9"
+    rep.rule(R, "a name in an expression evaluates to the value stored for it in the variable table (a measured register to its symbol, a registered p-array to its name); nothing else "
+                "- no table of constants, defaults or caches - answers for a name", floor=1)
+    f = ix.func(EVAL)
+    arg = f.params[0]
+    br = branches.get("VariableLabel")
+    if br is None:
+        raise Inconclusive("_expression: VariableLabel branch not recognised")
+    te = TermEval(single_accessors(cc, "VariableLabel"), ctxvar=arg)
+    paths = [p_ for p_ in te.paths(br.body, {}) if p_[1] not in ("RAISE", "FALL")]
+    if not paths:
+        raise Inconclusive("VariableLabel branch has no value path")
+    text = ("method", ("name", arg), "getText", (), ())
+    for n_, (conds, t, env) in enumerate(paths):
+        shown = show(t)
+        if isinstance(t, tuple) and t[0] == "index" and t[1] == ("name", "_VAR") and t[2] == text:
+            kind = "the stored value"
+        elif t == text:
+            kind = "the name itself (p-array)"
+        elif isinstance(t, tuple) and t[0] == "call" and str(t[1]).split(".")[-1] == "Symbol" and tuple(t[2]) == (text,):
+            kind = "the symbol of a register"
+        else:
+            kind = None
+        cond_txt = " and ".join(("" if v_ else "not ") + c_ for c_, v_ in conds)[:120]
+        if kind:
+            rep.ok(R, ix.site(f, br), "under `%s` the name evaluates to %s" % (cond_txt, kind))
+        elif definite(t):
+            rep.bad(R, ix.site(f, br), "a name evaluates to its table entry, its own text (p-array) or its register symbol", "under `%s` it evaluates to %s" % (cond_txt, shown), key="var|" + shown[:60])
+        else:
+            rep.unknown(R, ix.site(f, br), "a name evaluates to its table entry, its own text (p-array) or its register symbol", "under `%s` it evaluates to %s" % (cond_txt, shown))
 
 
 # ------------------------------------------------------------------------------------------- C03.4 function table
